@@ -1,10 +1,13 @@
 //! C19 bounded: "basis, frame and plane constructions are orthonormal and right-handed", evaluated on the REAL code.
-//! Planes: 6 non-collinear integer point triples, 4 (normal, point) pairs, 4 query points.  Principal axes: 7 point sets
-//! in 3D (generic, generic weighted, planar, collinear, coincident) and 4 in 2D, weights from {0.5, 1, 2, 3, 4}, weight
-//! scale factors {2, 0.5, 8}, the 76 isometries of the C03 bounded check for the equivariance clause.  Frame
-//! constructors: the six try_from_basis_* on 5 x 6 vector pairs (skew, different lengths, one nearly parallel pair), 3
-//! origins, 6 parallel / zero pairs.  Singular vectors are compared up to sign, and only where the singular values are
-//! separated (the SVD does not determine them otherwise).  All float comparisons: 1e-9 relative (`close`).
+//! Planes: 6 non-collinear integer point triples, 4 (normal, point) pairs, 4 query points.  Principal axes: 8 point sets
+//! in 3D (generic, skew, planar, collinear, coincident; weighted and not) and 4 in 2D, weights from {0.5, 1, 2, 3, 4},
+//! weight scale factors {2, 0.5, 8, 1e-6, 1e-18, 1e18}, the 76 (3D) / 24 (2D) isometries of the C03 bounded check for the
+//! equivariance clause.  Frame constructors: the six try_from_basis_* on 10 x 11 vector pairs (all signed axis pairs,
+//! skew pairs of different lengths, one nearly parallel pair at 1e-3), 3 origins, 12 parallel / zero pairs (6 of them
+//! parallel along directions that are not exactly representable, so that the cross product is rounding noise);
+//! iso3_from_xyo / iso3_from_basis / iso2_from_basis / Iso3::from(&SvdBasis3) / Iso2::from(&SvdBasis2).
+//! Singular vectors are compared up to sign, and only where the singular values are separated (the SVD does not
+//! determine them otherwise).  All float comparisons: 1e-9 relative (`close`).
 use super::c03::isos3;
 use super::{close, Report};
 use crate::common::svd_basis::{iso2_from_basis, iso3_from_basis, iso3_from_xyo};
@@ -152,7 +155,7 @@ fn svd3(r: &mut Report) {
             r.check(cp3(&(f * (b.center + b.basis[0].cross(&b.basis[1]))), &p3(0.0, 0.0, 1.0)), "Iso3::from(&SvdBasis3) is right-handed (b0 x b1 goes to z)", d);
         }
         // unchanged by uniformly scaling all weights
-        for k in [2.0, 0.5, 8.0] {
+        for k in [2.0, 0.5, 8.0, 1e-6, 1e-18, 1e18] {
             let w2: Vec<f64> = (0..s.pts.len()).map(|i| k * w.map_or(1.0, |w| w[i])).collect();
             let b2 = SvdBasis3::from_points(&s.pts, Some(&w2));
             let dk = || format!("{} all weights x {}", d(), k);
@@ -208,7 +211,7 @@ fn svd2(r: &mut Report) {
         for q in [p2(1.0, 2.0), p2(-0.5, 0.25)].iter().chain(pts.iter()) {
             r.check(cp2(&b.point_from_basis(&b.point_to_basis(q)), q) && cp2(&b.point_to_basis(&b.point_from_basis(q)), q), "principal axes 2D: to-basis / from-basis round trip", || format!("{} point {:?}", d(), q.coords.as_slice()));
         }
-        for k in [2.0, 0.5, 8.0] {
+        for k in [2.0, 0.5, 8.0, 1e-6, 1e-18, 1e18] {
             let w2: Vec<f64> = (0..pts.len()).map(|i| k * wr.map_or(1.0, |w| w[i])).collect();
             let b2 = SvdBasis2::from_points(pts, Some(&w2));
             let dk = || format!("{} all weights x {}", d(), k);
@@ -301,8 +304,11 @@ fn frames(r: &mut Report) {
             }
         } }
         // parallel or zero inputs fail rather than returning garbage
-        let bad = [(v3(1.0, 2.0, 2.0), v3(2.0, 4.0, 4.0)), (v3(1.0, 2.0, 2.0), v3(-1.0, -2.0, -2.0)), (v3(0.0, 0.0, 3.0), v3(0.0, 0.0, 0.5)),
-            (v3(0.0, 0.0, 0.0), v3(0.0, 1.0, 0.0)), (v3(1.0, 0.0, 0.0), v3(0.0, 0.0, 0.0)), (v3(0.0, 0.0, 0.0), v3(0.0, 0.0, 0.0))];
+        let bad: Vec<(Vector3, Vector3)> = vec![(v3(1.0, 2.0, 2.0), v3(2.0, 4.0, 4.0)), (v3(1.0, 2.0, 2.0), v3(-1.0, -2.0, -2.0)), (v3(0.0, 0.0, 3.0), v3(0.0, 0.0, 0.5)),
+            (v3(0.0, 0.0, 0.0), v3(0.0, 1.0, 0.0)), (v3(1.0, 0.0, 0.0), v3(0.0, 0.0, 0.0)), (v3(0.0, 0.0, 0.0), v3(0.0, 0.0, 0.0)),
+            // parallel along directions that are not exactly representable: the cross product is rounding noise, not 0
+            (v3(0.3, -1.7, 2.9), v3(0.3, -1.7, 2.9) * 7.0), (v3(0.3, -1.7, 2.9), v3(0.3, -1.7, 2.9) * -0.1), (v3(0.1, 0.2, 0.3), v3(0.3, 0.6, 0.9)),
+            (v3(1.1, 2.3, -0.7) * 3.0, v3(1.1, 2.3, -0.7) / 3.0), (v3(0.1, 0.7, 0.0), v3(-0.3, -2.1, 0.0)), (v3(1e-3, 2e-3, 5e-3), v3(0.7, 1.4, 3.5))];
         for (a, b) in bad.iter() {
             r.case();
             r.check(ctor(a, b, Some(p3(1.0, 2.0, 3.0))).is_err(), "frame constructor fails for parallel or zero inputs", || format!("Iso3::{}({:?}, {:?}, ..)", cname, a.as_slice(), b.as_slice()));
@@ -341,7 +347,7 @@ fn frames(r: &mut Report) {
 }
 
 pub fn run() -> Option<Report> {
-    let mut r = Report::new("planes: 6 non-collinear point triples, 4 (normal, point) pairs / surface points, 4 queries; principal axes: 8 point sets in 3D (generic, skew, planar, collinear, coincident; weights from {0.5..4}) and 4 in 2D, weight scale factors {2, 0.5, 8}, 76 (3D) / 24 (2D) isometries (quarter turns, 30/45 degrees, general axis, translations up to 1000); singular vectors compared up to sign and only where singular values are separated by > 1e-3 of the largest; frame constructors: six try_from_basis_* x 5 first x 6 second arguments (skew, unequal lengths, one nearly parallel pair at 1e-3) x 3 origins, 6 parallel / zero pairs each; iso3_from_xyo / iso3_from_basis / iso2_from_basis / Iso3::from(&SvdBasis3); all comparisons to 1e-9");
+    let mut r = Report::new("planes: 6 non-collinear point triples, 4 (normal, point) pairs / surface points, 4 queries; principal axes: 8 point sets in 3D (generic, skew, planar, collinear, coincident; weights from {0.5..4}) and 4 in 2D, weight scale factors {2, 0.5, 8, 1e-6, 1e-18, 1e18}, 76 (3D) / 24 (2D) isometries (quarter turns, 30/45 degrees, general axis, translations up to 1000); singular vectors compared up to sign and only where singular values are separated by > 1e-3 of the largest; frame constructors: six try_from_basis_* x 10 first x 11 second arguments (all signed axis pairs, skew, unequal lengths, one nearly parallel pair at 1e-3) x 3 origins, 12 parallel / zero pairs each (6 of them parallel along directions that are not exactly representable); iso3_from_xyo / iso3_from_basis / iso2_from_basis / Iso3::from(&SvdBasis3); all comparisons to 1e-9");
     planes(&mut r);
     svd3(&mut r);
     svd2(&mut r);
